@@ -50,9 +50,13 @@ pub enum Pos {
     MysqlAlterColComment,
     IndexFilterLiteral,
     CheckLiteral,
+    /// a JSON document that is nothing but a string
+    JsonTop,
+    /// inject_parameters with the same numbered placeholder used twice (Postgres)
+    InjectTwice,
 }
 
-const TEXT_POSITIONS: [Pos; 25] = [
+const TEXT_POSITIONS: [Pos; 27] = [
     Pos::Val,
     Pos::Constant,
     Pos::ConstantInBuild,
@@ -78,6 +82,8 @@ const TEXT_POSITIONS: [Pos; 25] = [
     Pos::MysqlAlterColComment,
     Pos::IndexFilterLiteral,
     Pos::CheckLiteral,
+    Pos::JsonTop,
+    Pos::InjectTwice,
 ];
 
 fn a(s: &str) -> Alias {
@@ -273,6 +279,13 @@ fn render_text(p: Pos, d: Dialect, v: &str) -> Option<String> {
             };
             inject_parameters(tpl, vec![Value::from(v)], q)
         }
+        Pos::JsonTop => Query::select().expr(Expr::val(serde_json::Value::String(v.to_string()))).inline_routed(d),
+        Pos::InjectTwice => {
+            if d != Dialect::Postgres {
+                return None;
+            }
+            inject_parameters("SELECT $1, 'lit', $2, $1", vec![Value::from(v), Value::from(7)], q)
+        }
         Pos::InsertValue => {
             Query::insert()
                 .into_table(a("t"))
@@ -316,6 +329,10 @@ fn first_diff_sig(want: &str, got: &str) -> String {
 /// What the slot token decodes to, as text.
 fn slot_text(p: Pos, t: &Tok) -> Option<String> {
     match (p, t) {
+        (Pos::JsonTop, Tok::Str(s)) => {
+            let j: serde_json::Value = serde_json::from_str(s).ok()?;
+            j.as_str().map(|x| x.to_string())
+        }
         (Pos::Json, Tok::Str(s)) => {
             let j: serde_json::Value = serde_json::from_str(s).ok()?;
             j.get("k")?.as_str().map(|x| x.to_string())
